@@ -41,8 +41,22 @@ def run_one(sid, tier="quick"):
     sh(f"rsync -a --exclude .git /repo/ {work}/")
     r = sh(f"patch -p1 --no-backup-if-mismatch < {os.path.join(d, 'patch.diff')}", cwd=work)
     if r.returncode != 0:
+        # the patch was written against an older commit and later fixes touched the same lines: let git merge it three-way
+        # (the blobs named in the patch's index lines are in /repo's object store) in a throw-away worktree of HEAD
         shutil.rmtree(work, ignore_errors=True)
-        return {"id": sid, "applied": False, "log": (r.stdout + r.stderr)[-400:]}
+        wt = work + ".wt"
+        sh(f"git -C /repo worktree remove --force {wt}")
+        sh(f"git -C /repo worktree add --detach {wt} HEAD")
+        r3 = sh(f"git -C {wt} apply -3 {os.path.join(d, 'patch.diff')}")
+        conflicted = sh(f"git -C {wt} diff --name-only --diff-filter=U").stdout.strip()
+        ok3 = r3.returncode == 0 and not conflicted
+        if ok3:
+            sh(f"rsync -a --exclude .git {wt}/ {work}/")
+        sh(f"git -C /repo worktree remove --force {wt}")
+        sh("git -C /repo worktree prune")
+        if not ok3:
+            shutil.rmtree(work, ignore_errors=True)
+            return {"id": sid, "applied": False, "log": (r.stdout + r.stderr)[-300:] + " | 3-way: " + (r3.stdout + r3.stderr)[-300:]}
     res = {"id": sid, "applied": True, "property": meta["property"], "checks": {}}
     demo = os.path.join(d, "demo.py")
     if os.path.exists(demo):
